@@ -456,6 +456,13 @@ Fixpoint grun (s : gst) (tr : list (Z * event)) : option gst :=
   | (t, e) :: tr' => match gstep s t e with Some s' => grun s' tr' | None => None end
   end.
 
+(* the same, checking the quantitative contract at every step: a run accepted here is a run of `step` *)
+Fixpoint grunc (s : gst) (tr : list (Z * event)) : option gst :=
+  match tr with
+  | [] => Some s
+  | (t, e) :: tr' => if contractb s t e then match gstep s t e with Some s' => grunc s' tr' | None => None end else None
+  end.
+
 (* ------------------------------------------------------------------ correspondence drivers *)
 (* (1) per-thread trace conformance *)
 Definition pc_idle (p : pc) : Z := match p with PIdle => 1 | _ => 0 end.
